@@ -1226,8 +1226,34 @@ struct NWorld {
     /// readiness reported by the most recent future poll that returned
     last_exit: Option<bool>,
     entered: usize,
+    /// reference queue kept by the harness (public API only): a task is appended when it is spawned or woken
+    /// while not in it; every pop made by `Executor::step` (top-level or nested) must take its front
+    expq: std::collections::VecDeque<usize>,
     fails: Vec<String>,
     exec: Option<Executor<'static>>,
+}
+
+impl NWorld {
+    /// a wake-up of task t is about to be issued
+    fn expect_wake(&mut self, t: usize) {
+        if !self.expq.contains(&t) {
+            self.expq.push_back(t);
+        }
+    }
+    /// `Executor::step` popped a task and entered the future of t
+    fn expect_enter(&mut self, t: usize) {
+        match self.expq.pop_front() {
+            Some(f) if f == t => {}
+            other => self.fails.push(format!("overtaken:entered{t}-front{other:?}").replace(['(', ')'], "")),
+        }
+    }
+    /// `Executor::step` popped a task whose slot is empty (`Some(true)` without entering a future)
+    fn expect_noop(&mut self) {
+        match self.expq.pop_front() {
+            Some(f) if self.done[f] => {}
+            other => self.fails.push(format!("overtaken:noop-front{other:?}").replace(['(', ')'], "")),
+        }
+    }
 }
 
 struct NTask {
@@ -1261,6 +1287,7 @@ impl Future for NTask {
             if w.done[id] {
                 w.fails.push(format!("poll-after-complete:{id}"));
             }
+            w.expect_enter(id);
             w.active[id] = true;
             w.woken_active[id] = false;
             w.entered += 1;
@@ -1278,7 +1305,11 @@ impl Future for NTask {
                 }
                 Some(NAct::Y) => {
                     self.pc += 1;
-                    self.world.borrow_mut().woken_active[id] = true;
+                    {
+                        let mut w = self.world.borrow_mut();
+                        w.woken_active[id] = true;
+                        w.expect_wake(id);
+                    }
                     cx.waker().wake_by_ref();
                     self.leave(false);
                     return Poll::Pending;
@@ -1290,6 +1321,9 @@ impl Future for NTask {
                         let wk = w.wakers.get(u).cloned().flatten();
                         if wk.is_some() && w.active[u] {
                             w.woken_active[u] = true;
+                        }
+                        if wk.is_some() {
+                            w.expect_wake(u);
                         }
                         wk
                     };
@@ -1307,13 +1341,19 @@ impl Future for NTask {
                     let r = exec.step();
                     let mut w = self.world.borrow_mut();
                     match r {
-                        None => w.toks.push("i".into()),
+                        None => {
+                            if !w.expq.is_empty() {
+                                w.fails.push("step-none-with-woken-tasks".into());
+                            }
+                            w.toks.push("i".into())
+                        }
                         Some(b) => {
                             if w.entered == before {
                                 // `Task::poll` on an emptied slot
                                 if !b {
                                     w.fails.push("noop-poll-returned-false".into());
                                 }
+                                w.expect_noop();
                                 w.toks.push("~".into());
                             } else if w.last_exit != Some(b) {
                                 w.fails.push(format!("nested-step-bool:{b}"));
@@ -1347,6 +1387,7 @@ fn run_nested(scripts: &[Vec<NAct>]) -> (String, String) {
     for (id, sc) in scripts.iter().enumerate() {
         let t = NTask { id, script: sc.clone(), pc: 0, world: Rc::clone(&world) };
         receivers.push(unsafe { exec.spawn(t) });
+        world.borrow_mut().expq.push_back(id);
     }
     let mut end = "cut";
     for _ in 0..MAX_STEPS {
@@ -1354,6 +1395,9 @@ fn run_nested(scripts: &[Vec<NAct>]) -> (String, String) {
         let r = std::panic::catch_unwind(std::panic::AssertUnwindSafe(|| exec.step()));
         match r {
             Ok(None) => {
+                if !world.borrow().expq.is_empty() {
+                    world.borrow_mut().fails.push("stalled-with-woken-tasks".into());
+                }
                 end = "stall";
                 break;
             }
@@ -1363,6 +1407,7 @@ fn run_nested(scripts: &[Vec<NAct>]) -> (String, String) {
                     if !b {
                         w.fails.push("noop-poll-returned-false".into());
                     }
+                    w.expect_noop();
                     w.toks.push("~".into());
                 } else if w.last_exit != Some(b) {
                     w.fails.push(format!("step-bool:{b}"));
@@ -1371,6 +1416,10 @@ fn run_nested(scripts: &[Vec<NAct>]) -> (String, String) {
                     w.fails.push("active-after-step".into());
                 }
                 let wc = exec.wake_count();
+                let want = w.expq.len();
+                if wc != want {
+                    w.fails.push(format!("queue-size:{wc}-expected:{want}"));
+                }
                 w.toks.push(format!("|{wc}"));
             }
             Err(p) => {
@@ -1388,6 +1437,14 @@ fn run_nested(scripts: &[Vec<NAct>]) -> (String, String) {
                 if !(0..n).any(|t| w.active[t] && w.woken_active[t]) {
                     w.fails.push("guard-without-cause".into());
                 }
+                // … and that task was the front of the queue
+                match w.expq.pop_front() {
+                    Some(f) if w.active[f] && w.woken_active[f] => {}
+                    other => {
+                        let m = format!("overtaken:guard-front{other:?}").replace(['(', ')'], "");
+                        w.fails.push(m)
+                    }
+                }
                 end = "panic";
                 break;
             }
@@ -1401,6 +1458,11 @@ fn run_nested(scripts: &[Vec<NAct>]) -> (String, String) {
         if r.is_ok() != want_ok {
             w.fails.push(format!("receiver:{t}"));
         }
+    }
+    // "when the run loop stalls every unfinished task is genuinely waiting": these futures return `Pending` only
+    // after waking themselves, so at a stall every task must have completed
+    if end == "stall" && w.done.iter().any(|d| !*d) {
+        w.fails.push("stalled-with-unfinished-task".into());
     }
     let done: Vec<String> = (0..n).filter(|t| w.done[*t]).map(|t| t.to_string()).collect();
     let obs = format!(
